@@ -24,6 +24,7 @@ rank = z3.Function('rank', Addr, z3.IntSort())
 VarE = z3.Function('VarE', Str, Str, Val)              # the expression a variable resolves to for an asset type
 AssetByName = z3.Function('AssetByName', Str, Val)     # language-graph asset with that name (None if absent)
 VarAny = z3.Function('VarAny', Str, Val)                # the expression variable `name` resolves to for every live asset (uniform resolution)
+XCopy = z3.Function('XCopy', Addr, z3.BoolSort())           # ghost: the dict is an expression record of the specification or a faithful (deep) copy of one
 SetOf = z3.Function('SetOf', BagSort, SetA)            # the set of references held by a list (given by its bag)
 K = lambda s_: VStr(str_const(s_))
 S = str_const
@@ -177,16 +178,41 @@ def install(reg: Registry):
     install_variable_lookup(reg)
 
     # ---- _process_step_expression
+    # The expression handed in is either a record of the specification or a deep copy of one (generation passes copies made by
+    # _get_attacks_for_asset_type): everything is stated about its ORIGIN E = orig(step_expression) (ghost origin map), and the
+    # copy is required to be faithful: same keys, same scalars, children faithful copies of the origin's children.
+    def E(c):
+        return c.old.orig(c.step_expression)
+
+    EXPR_KEYS = (('type', False), ('name', False), ('subType', False), ('lhs', True), ('rhs', True), ('stepExpression', True))
+
+    def faithful(o, hs):
+        d = A('d!ff')
+        od = o.orig(d)
+        conj = [d >= 0, d < o.alloc, od >= 0, od < hs.alloc, o.cls(d) == CLS_DICT, hs.cls(od) == CLS_DICT, hs.has(od, K('type')), o.orig(od) == od]
+        for k, tree in EXPR_KEYS:
+            conj.append(o.has(d, K(k)) == hs.has(od, K(k)))
+            if tree:
+                ch = v_a(o.val(d, K(k)))
+                conj.append(z3.Implies(o.has(d, K(k)), z3.And(is_VRef(o.val(d, K(k))), XCopy(ch), o.orig(ch) == v_a(hs.val(od, K(k))))))
+            else:
+                conj.append(z3.Implies(o.has(d, K(k)), o.val(d, K(k)) == hs.val(od, K(k))))
+        return FA([d], z3.Implies(XCopy(d), z3.And(*conj)), [XCopy(d)])
+
     def requires(c):
         o = c.old
         hs = spec_heap(o.schema)
-        e = c.step_expression
+        e = E(c)
         x1, x2, nn, tt = A('x1!vu'), A('x2!vu'), z3.Const('n!vu', Str), z3.Const('t!ve', Str)
         eq = A('e!so')
         return [(nm, f) for nm, f in sem_axioms(hs, c.model)] + [
             ('HS.agree', agree(hs, o)),
             ('HS.closed', z3.And(*heap_closed(hs))),
             ('HS.objects', z3.And(e >= 0, e < hs.alloc, c.model >= 0, c.model < hs.alloc, c.lang_graph >= 0, c.lang_graph < hs.alloc)),
+            ('expression-is-a-faithful-copy', XCopy(c.step_expression)),
+            ('faithful', faithful(o, hs)),
+            ('originals-are-expressions', FA([eq], z3.Implies(z3.And(eq >= 0, eq < hs.alloc, hs.cls(eq) == CLS_DICT, hs.has(eq, K('type'))),
+                                                             z3.And(XCopy(eq), o.orig(eq) == eq)), [hs.has(eq, K('type'))])),
             ('wf_expr', wf_expr(hs)),
             ('expr-is-dict', z3.And(hs.cls(e) == CLS_DICT, hs.has(e, K('type')))),
             ('no-transitive', NoTrans(e)),
@@ -221,7 +247,7 @@ def install(reg: Registry):
 
     def ensures(c):
         o, h = c.old, c.h
-        e = c.step_expression
+        e = E(c)
         R = c.result.elts[0].t
         y = A('y!pe')
         v = z3.Const('v!pe', Val)
@@ -247,7 +273,7 @@ def install(reg: Registry):
             acc = c.local('new_target_assets').t
             y = A('y!ai')
             v = z3.Const('v!ai', Val)
-            e = c.step_expression
+            e = E(c)
             lh, rh = c.local('lh_targets').t, c.local('rh_targets').t
             inl = lambda L, q: h.cnt(L, q) > 0
             dn = lambda q: z3.Select(c.done, VRef(q)) > 0
@@ -290,7 +316,7 @@ def install(reg: Registry):
             ('acc-fresh', z3.And(acc >= o.alloc, acc < h.alloc, h.cls(acc) == CLS_LIST)),
             ('acc-elems', FA([v], z3.Implies(h.bag(acc, v) > 0, z3.And(is_VRef(v), HSc(c).cnt(HSc(c).f('assets', c.model), v_a(v)) > 0)), [h.bag(acc, v)])),
             ('members', FA([y], (h.cnt(acc, y) > 0) == z3.Exists([x], z3.And(z3.Select(c.done, VRef(x)) > 0,
-                                                                              nav(HSc(c), c.model, ename(HSc(c), c.step_expression), x, y))), [h.cnt(acc, y)])),
+                                                                              nav(HSc(c), c.model, ename(HSc(c), E(c)), x, y))), [h.cnt(acc, y)])),
         ]
 
     def sub_collect_inv(c: LCtx):
@@ -298,7 +324,7 @@ def install(reg: Registry):
         acc = c.local('new_target_assets').t
         y = A('y!sc')
         v = z3.Const('v!sc', Val)
-        s = sub_e(HSc(c), c.step_expression, 'stepExpression')
+        s = sub_e(HSc(c), E(c), 'stepExpression')
         return [
             ('HS.agree', agree(HSc(c), h)),
             ('nothing-old-is-written', old_unchanged(o, h)),
@@ -313,7 +339,7 @@ def install(reg: Registry):
         src = c.local('new_target_assets').t
         y = A('y!sf')
         v = z3.Const('v!sf', Val)
-        e = c.step_expression
+        e = E(c)
         ok = lambda q: ANC(v_a(AssetByName(HSc(c).f('type', q))), v_a(AssetByName(v_s(HSc(c).val(e, K('subType'))))))
         return [
             ('HS.agree', agree(HSc(c), h)),
@@ -329,7 +355,7 @@ def install(reg: Registry):
                      {'lang_graph': Obj(LG), 'model': Obj(MODEL), 'target_assets': List(Obj(ASSET)), 'step_expression': EXPR},
                      returns=T('tuple', elts=[List(Obj(ASSET)), T('str', opt=True)]), ghosts={'X': SetA},
                      requires=requires, ensures=ensures, modifies=LIST_ARRAYS + DICT_ARRAYS + ('cls', 'own_obj'), allocates=True,
-                     decreases=lambda c: rank(c.step_expression),
+                     decreases=lambda c: rank(c.old.orig(c.step_expression)),
                      call_ghosts={('_process_step_expression', 'X'): bind_X},
                      raises={'LookupError': lambda c: z3.BoolVal(False)},
                      loops={0: LoopSpec(acc_inv('union')), 1: LoopSpec(acc_inv('intersection')), 2: LoopSpec(acc_inv('difference')),
